@@ -62,8 +62,8 @@ RULE = ("Cases are single calls of dfols.solve on random small problems (linear+
         "invalid-input / unknown-name case (the branch no test reaches), or a valid case that sets at least one "
         "non-default argument or parameter and performed more than one objective evaluation.")
 
-CPU_NOEVAL_LIMIT = 4.0     # seconds of process CPU time without any objective evaluation -> hang
-CPU_TOTAL_LIMIT = 12.0     # seconds of process CPU time for one solve -> hang
+CPU_NOEVAL_LIMIT = 5.0     # seconds of process CPU time without any objective evaluation -> hang
+CPU_TOTAL_LIMIT = 15.0     # seconds of process CPU time for one solve that keeps evaluating -> 'slow': abandoned, not judged
 
 
 # ---------------------------------------------------------------------------------------------------- encoding
@@ -112,6 +112,7 @@ def unhxl(l):
 class _Counter(object):
     def __init__(self):
         self.calls = 0
+        self.nan_x_calls = 0
         self.last_cpu = time.process_time()
 
 
@@ -169,6 +170,8 @@ def make_objfun(prob, counter):
     def objfun(x, *args):
         counter.calls += 1
         counter.last_cpu = time.process_time()
+        if np.any(np.isnan(x)):
+            counter.nan_x_calls += 1
         out = base(np.asarray(x, dtype=float))
         if args:
             out = out + args[0]
@@ -249,10 +252,15 @@ class _Hang(BaseException):
     pass
 
 
+class _Slow(BaseException):
+    pass
+
+
 class _Watch(object):
     """CPU-time watchdog (SIGPROF): a run is declared hung when it burns CPU_NOEVAL_LIMIT seconds of process CPU time
-    without evaluating the objective, or CPU_TOTAL_LIMIT seconds in total.  CPU time, not wall time, so that a loaded
-    machine does not produce false alarms; does not touch the caller's SIGALRM."""
+    without evaluating the objective (the solver's own budget, maxfun, only bounds evaluations).  A run that keeps
+    evaluating but needs more than CPU_TOTAL_LIMIT seconds is abandoned as 'slow' and not judged.  CPU time, not wall
+    time, so that a loaded machine does not produce false alarms; does not touch the caller's SIGALRM."""
 
     def __init__(self, counter):
         self.counter = counter
@@ -267,7 +275,7 @@ class _Watch(object):
                 raise _Hang('no objective evaluation for %.1f s of CPU time (after %d evaluations)'
                             % (now - self.counter.last_cpu, self.counter.calls))
             if now - self.t0 > CPU_TOTAL_LIMIT:
-                raise _Hang('%.1f s of CPU time in one solve (%d evaluations)' % (now - self.t0, self.counter.calls))
+                raise _Slow('%.1f s of CPU time in one solve (%d evaluations)' % (now - self.t0, self.counter.calls))
         self.old = signal.signal(signal.SIGPROF, handler)
         signal.setitimer(signal.ITIMER_PROF, 0.5, 0.5)
         return self
@@ -304,9 +312,13 @@ def run_case(case):
         except _Hang as ex:
             out.update(kind='hang', detail=str(ex), calls=counter.calls)
             return out
+        except _Slow as ex:
+            out.update(kind='slow', detail=str(ex), calls=counter.calls)
+            return out
         except Exception as ex:
             fr = _dfols_frame(sys.exc_info()[2])
             out.update(kind='raised', exc=type(ex).__name__, exc_msg=str(ex)[:200], calls=counter.calls,
+                       nan_x_calls=counter.nan_x_calls,
                        where=('%s.%s' % (fr[0], fr[1])) if fr else 'outside_dfols', line=fr[2] if fr else None)
             return out
         finally:
@@ -380,9 +392,20 @@ def _known_raise(case, o):
     if o['exc'] == 'RuntimeError' and case.get('proj') and (npt != n + 1 or reduced) \
             and 'initial directions' in o.get('exc_msg', ''):
         return 'C07:projections_npt_runtimeerror'
-    if o['exc'] == 'UnboundLocalError' and case.get('regu') is not None and up.get('func_tol.max_iters') == 0:
+    if o['exc'] in ('UnboundLocalError', 'ZeroDivisionError') and case.get('regu') is not None \
+            and up.get('func_tol.max_iters') == 0 and o.get('where') == 'trust_region.ctrsbox_sfista':
+        # zero S-FISTA iterations: 2*delta/(0*L_h) is a ZeroDivisionError for a Python-float lh and inf for a numpy
+        # one, in which case the loop body never runs and 'gnew' is unbound at the return
         return 'C07:sfista_zero_iters'
-    if o['exc'] == 'ZeroDivisionError' and reduced and npt > n + 1:
+    # growing phase with npt > n+1: the new direction is orthogonalised against n existing ones, its norm is 0 and
+    # controller.add_new_direction_while_growing divides by it - ZeroDivisionError for Python floats; for numpy floats
+    # the point becomes NaN, the objective is called with NaN and the next factorisation raises ValueError
+    hard_inc = bool(up.get('restarts.increase_npt')) and up.get('restarts.use_soft_restarts') is False
+    beyond_n = (reduced and npt > n + 1) or hard_inc
+    if o['exc'] == 'ZeroDivisionError' and o.get('where') == 'controller.add_new_direction_while_growing':
+        return 'C07:growing_zero_division'
+    if o['exc'] == 'ValueError' and beyond_n and o.get('where') == 'model.factorise_geom_system' \
+            and 'infs or NaNs' in o.get('exc_msg', '') and o.get('nan_x_calls', 0) > 0:
         return 'C07:growing_zero_division'
     return None
 
@@ -392,6 +415,9 @@ def judge(case, o):
     exp = case['expect']
     group, label = case['group'], case['label']
     desc = '%s/%s/%s' % (group, label, case.get('vclass', ''))
+    if o['kind'] == 'slow' and (exp != 'input_error' or o['calls'] == 0):
+        return None          # still busy after CPU_TOTAL_LIMIT: says nothing about the property (for invalid input
+                             # with evaluations it does: the input was accepted)
     if exp == 'unknown_key':
         if o['kind'] == 'raised' and o['exc'] == 'ValueError':
             return None
@@ -401,15 +427,20 @@ def judge(case, o):
 
     if exp == 'input_error':
         argkind = 'user_param' if group == 'key' else label
-        if o['kind'] == 'raised':
+        is_err_result = (o['kind'] == 'result' and o['input_error_const'] is not None
+                         and o['flag'] == o['input_error_const'])
+        if o['kind'] == 'raised' and o['calls'] == 0:
             return _v('C07:input_error_raises:%s:%s' % (argkind, o['exc']),
                       'invalid input (%s) raised %s: %s [%s:%s]' % (desc, o['exc'], o['exc_msg'], o['where'], o['line']),
                       case, o)
-        if o['kind'] == 'hang':
-            return _v('C07:bad_argument_accepted:%s' % argkind if group != 'key' else 'C07:bad_value_accepted:%s' % label,
-                      'invalid input (%s) was not reported and the solve then did not return: %s' % (desc, o['detail']),
-                      case, o)
-        if o['input_error_const'] is None or o['flag'] != o['input_error_const']:
+        if not is_err_result:
+            # the validation let it through: the solver started evaluating (and then returned, raised, or spun)
+            if o['kind'] == 'result':
+                then = 'flag %s' % o['flag']
+            elif o['kind'] == 'raised':
+                then = 'later raised %s: %s [%s:%s]' % (o['exc'], o['exc_msg'], o['where'], o['line'])
+            else:
+                then = 'then did not return: %s' % o['detail']
             if group == 'key':
                 vc = case.get('vclass', '')
                 if vc == 'bool_for_int':
@@ -418,11 +449,10 @@ def judge(case, o):
                     sig = 'C07:none_value_ignored'
                 else:
                     sig = 'C07:bad_value_accepted:%s' % label
-                return _v(sig, 'user_params {%r: %s} (%s) accepted: flag %s, %s objective evaluations'
-                          % (label, show(case['user_params'][-1][1]), vc, o['flag'], o['calls']), case, o)
+                return _v(sig, 'user_params {%r: %s} (%s) accepted: %s objective evaluations, %s'
+                          % (label, show(case['user_params'][-1][1]), vc, o['calls'], then), case, o)
             return _v('C07:bad_argument_accepted:%s' % label,
-                      'invalid argument (%s) accepted: flag %s, %s objective evaluations' % (desc, o['flag'], o['calls']),
-                      case, o)
+                      'invalid argument (%s) accepted: %s objective evaluations, %s' % (desc, o['calls'], then), case, o)
         if o['nf'] != 0 or o['calls'] != 0:
             return _v('C07:input_error_nonzero_evals:%s' % argkind,
                       'input-error result with nf=%s and %s calls of the objective (%s)' % (o['nf'], o['calls'], desc),
@@ -960,8 +990,12 @@ def random_case(rng):
         feats.append('growing')
     if rng.random() < 0.2:
         up.setdefault('logging.save_diagnostic_info', True)
+    if ctx['regu'] is not None and ctx['proj']:
+        # S-FISTA x Dykstra is the one really expensive combination: keep both iteration caps small (in-range values)
+        up['func_tol.max_iters'] = min(up.get('func_tol.max_iters', 30), 30) or 30
+        up['dykstra.max_iters'] = min(up.get('dykstra.max_iters', 10), 10) or 10
     pairs = [[k, enc(v)] for k, v in up.items()] or None
-    case = _mk_case(prob, ctx, pairs, int(rng.integers(1 << 30)), 'random', 'optionset', '+'.join(sorted(set(feats))), 'ok')
+    case = _mk_case(prob, ctx, pairs, int(rng.integers(1 << 30)), 'random', 'optionset', ','.join(sorted(set(feats))), 'ok')
     return case
 
 
@@ -1061,7 +1095,7 @@ def run_task(task):
         elif case['group'] == 'arg':
             bump('argkind:' + case['label'])
         elif case['group'] == 'random':
-            for f in case['vclass'].split('+'):
+            for f in case['vclass'].split(','):
                 if f:
                     bump('feature:' + f)
             bump('n_user_params:%d' % len(case.get('user_params') or []))
@@ -1071,7 +1105,7 @@ def run_task(task):
         elif o['kind'] == 'raised':
             bump('outcome:raised_%s' % o['exc'])
         else:
-            bump('outcome:hang')
+            bump('outcome:' + o['kind'])     # hang / slow
         if _is_nontrivial(case, o):
             nontrivial += 1
         v = judge(case, o)
